@@ -9,6 +9,9 @@ def get(name):
     if name == "kf":            # provoke the known findings on purpose
         return P(kf="allow", n_sides=4, n_apps=2, p_crash=0.0, p_restart=0.01, length=(30, 70),
                  mboxes=["m1"], names=["1", "2"], final_quiesce=False)
+    if name == "kf-q":          # C13: the known-finding triggers, then everybody leaves: the store must still empty
+        return P(kf="allow", n_sides=3, n_apps=2, p_crash=0.02, p_restart=0.02, length=(20, 50),
+                 mboxes=["m1", "m2"], names=["1", "2"], final_quiesce=True)
     if name == "two-app":       # C06: identical names/sides/ids in several apps
         return P(n_apps=3, n_sides=2, names=["1", "2"], mboxes=["m1", "m2"], p_malformed=0.05)
     if name == "crowd":         # C05: 3-4 sides on one nameplate/mailbox
@@ -42,6 +45,8 @@ def get(name):
         return P(script="unicode", n_apps=1)
     if name == "holes":         # C04: size classes filled by explicit claims (numeric and decoys), holes, then allocate
         return P(script="holes", n_apps=2)
+    if name == "reuse-after-prune":   # C01 C02 C05 C08 C11: ids that come back after expiry in the same process
+        return P(script=name, n_apps=2)
     if name == "crowd-retry":       # C05: the third side retries through every door while the first two come back (KF2 on purpose)
         return P(script=name, n_apps=1, kf="allow", final_quiesce=False)
     if name == "stale-ns":          # C03 C02 C11 C12: a connection bound across sweeps after a restart
@@ -67,7 +72,7 @@ def cfg_for(name, seed):
                 {"allow_list": False, "usage": False, "blur": 60}, {"allow_list": True, "usage": True, "blur": 3600}][seed % 4]
     if name in ("scale-time",):      # usage database on (C15), with and without blur
         return USAGE_CFGS[seed % len(USAGE_CFGS)]
-    if name.startswith("scale-") or name in ("late-sweep", "stale-ns", "crowd-retry"):
+    if name.startswith("scale-") or name in ("late-sweep", "stale-ns", "crowd-retry", "reuse-after-prune"):
         return G.CONFIGS[seed % len(G.CONFIGS)]
     if name.startswith("holes"):     # listing allowed and disallowed, usage on and off, in turn
         return G.CONFIGS[seed % len(G.CONFIGS)]
